@@ -19,7 +19,8 @@ from ..common import q, call_impl
 
 RULE = ("streams: linsolve (matrix class x dense/sparse format x real/complex matrix x real/complex rhs x vector/block x "
         "solver override x hermitian/symmetric flags, incl. FE stiffness matrices with boundary conditions and random "
-        "matrices with decoupled dofs), inverse, soe (ALL partitions of index sets n<=4 (5 thorough) + random larger, "
+        "matrices with dofs decoupled in row only / column only / both, triangular and block-triangular matrices, FE stiffness with "
+        "row-replacement boundary conditions), inverse, soe (ALL partitions of index sets n<=4 (5 thorough) + random larger, "
         "free/prescribed/both given, seeds x/b/both), staticcond (all disjoint main/free choices for n<=4 + random, dense "
         "and DyadCarrier seeds), malformed. distinct = distinct case names (configuration + seed); every case compares "
         "response and sensitivities with the exact model and runs the defining-equation oracle on the real outputs")
@@ -119,6 +120,17 @@ def rand_matrix(rng, n, cls, cplx):
     elif cls == "csymindef":  # complex symmetric and indefinite
         B = rn(n, n)
         A = (B + B.T) / 2 + np.diag(np.where(np.arange(n) % 2 == 0, 3.0, -3.0) * max(1, n / 2) * (1 + 0.5j))
+    elif cls == "tri":  # upper / lower triangular: the last / first row is diagonal-only while its column couples
+        A = rn(n, n) + n * np.eye(n)
+        A = np.triu(A) if rng.random() < 0.5 else np.tril(A)
+    elif cls == "blocktri":  # block triangular [[A11, A12], [0, A22]] (or its transpose), symmetrically permuted
+        A = rn(n, n) + n * np.eye(n)
+        k1 = int(rng.integers(1, n)) if n > 1 else 0
+        A[k1:, :k1] = 0
+        if rng.random() < 0.5:
+            A = A.T.copy()
+        perm = rng.permutation(n)
+        A = A[np.ix_(perm, perm)]
     elif cls == "diag":
         A = np.diag(rng.uniform(0.5, 3.0, n) * rng.choice([-1, 1], n) + (1j * rng.uniform(-1, 1, n) if cplx else 0))
     else:
@@ -126,18 +138,30 @@ def rand_matrix(rng, n, cls, cplx):
     return A
 
 
-def decouple(rng, A, herm):
-    """give some dofs the structure produced by boundary conditions: zero row and column, diagonal entry only"""
+def decouple(rng, A, mode="both", idx=None):
+    """give some dofs the structure produced by boundary conditions. Per dof one of
+      both: zero row and column, diagonal entry only (what AssembleGeneral's `bc` produces; keeps symmetry)
+      row : zero ROW only (row-replacement Dirichlet condition `A[i, :] = 0; A[i, i] = d`): the column still couples the dof
+            into the other equations, so it is NOT decoupled and its value has to be moved to their right-hand sides
+      col : zero COLUMN only: the other equations do not see the dof, its own equation still contains the others
+    mode = "both" | "row" | "col" | "mixed" (per dof at random). Returns (A, indices, kinds)."""
     n = A.shape[0]
-    if n < 3:
-        return A, []
-    nb = int(rng.integers(1, max(2, n // 2)))
-    idx = np.sort(rng.choice(n, size=nb, replace=False))
+    if n < 3 and idx is None:
+        return A, [], []
+    if idx is None:
+        nb = int(rng.integers(1, max(2, n // 2)))
+        idx = np.sort(rng.choice(n, size=nb, replace=False))
     A = A.copy()
-    A[idx, :] = 0
-    A[:, idx] = 0
-    A[idx, idx] = rng.uniform(0.5, 2.0, nb)
-    return A, idx.tolist()
+    kinds = []
+    for i in idx:
+        kd = mode if mode in ("row", "col", "both") else str(rng.choice(["row", "col", "both"]))
+        if kd in ("row", "both"):
+            A[i, :] = 0
+        if kd in ("col", "both"):
+            A[:, i] = 0
+        kinds.append(kd)
+    A[idx, idx] = rng.uniform(0.5, 2.0, len(idx))
+    return A, [int(v) for v in idx], kinds
 
 
 def fe_matrix(rng, with_bc=True, cplx=False):
@@ -227,7 +251,24 @@ def _matrix_for(rng, spec, classes, sparse_only=False):
         cplx = True
     info = ""
     left = None
-    if cls == "fe":
+    dmode = spec.get("decouple", None)
+    if dmode is None:
+        dmode = str(rng.choice(["both", "row", "col", "mixed"])) if rng.random() < 0.35 else False
+    elif dmode is True:
+        dmode = "both"
+    if spec.get("solver") is not None and dmode in ("row", "col", "mixed"):
+        dmode = "both"    # an explicit solver override is valid for the class only while the class is kept
+    if cls in ("ferow", "fecol", "femixed"):
+        # FE stiffness matrix WITHOUT assembled boundary conditions, then row- (column-) replacement conditions on the
+        # dofs of the clamped edge: `A[i, :] = 0; A[i, i] = d` leaves column i in the other equations
+        K, left, n, info = fe_matrix(rng, with_bc=False, cplx=cplx)
+        A = np.asarray(K.todense())
+        A, _, kinds = decouple(rng, A, {"ferow": "row", "fecol": "col", "femixed": "mixed"}[cls], idx=left)
+        info = cls + info
+        cls = "general"
+        left = None
+        sparse = True if "sparse" not in spec else spec["sparse"]
+    elif cls == "fe":
         K, left, n, info = fe_matrix(rng, with_bc=spec.get("bc", True), cplx=cplx)
         A = np.asarray(K.todense())
         sparse = True if "sparse" not in spec else spec["sparse"]
@@ -238,9 +279,16 @@ def _matrix_for(rng, spec, classes, sparse_only=False):
             mask = rng.random((n, n)) < 0.6
             mask = mask | mask.T | np.eye(n, dtype=bool)
             A = np.where(mask, A, 0)
-        if spec.get("decouple", rng.random() < 0.25) and cls != "diag":
-            A, dec_idx = decouple(rng, A, cls)
-            info = f"dec{len(dec_idx)}"
+        if dmode and cls != "diag":
+            A, dec_idx, kinds = decouple(rng, A, dmode)
+            if dec_idx:
+                info = "dec" + "".join(k[0] for k in kinds)
+                if any(k != "both" for k in kinds):
+                    info = cls + info     # the matrix is no longer in its (symmetric) class: any-matrix solvers only
+                    cls = "general"
+        if cls in ("tri", "blocktri"):
+            info = cls + info
+            cls = "general"
     fmts = list(SPFORMATS) if spec["stream"] == "linsolve" else ["csc", "csr"]   # scipy's coo format cannot be indexed
     fmt = str(rng.choice(fmts)) if sparse else "dense"
     if cplx and not np.iscomplexobj(A):
@@ -259,7 +307,7 @@ def build(spec):
     c.spec = spec
     c.stream = st
     if st == "linsolve":
-        A, cls, cplx, sparse, fmt, info, _ = _matrix_for(rng, spec, ["spd", "symindef", "general", "diag", "fe"])
+        A, cls, cplx, sparse, fmt, info, _ = _matrix_for(rng, spec, ["spd", "symindef", "general", "diag", "fe", "tri", "blocktri", "ferow", "femixed"])
         n = A.shape[0]
         k = spec.get("k", [None, 1, 2, 3][int(rng.integers(0, 4))])
         bcplx = spec.get("bcplx", cplx or bool(rng.random() < 0.3))
@@ -289,7 +337,7 @@ def build(spec):
         c.name = f"inverse.{cls}.n{n}.{'c' if cplx else 'r'}{'c' if wc else 'r'}.s{spec['seed']}"
         c.condmat = A
     elif st == "soe":
-        A, cls, cplx, sparse, fmt, info, left = _matrix_for(rng, spec, ["spd", "general", "symindef", "fe"])
+        A, cls, cplx, sparse, fmt, info, left = _matrix_for(rng, spec, ["spd", "general", "symindef", "fe", "tri", "blocktri", "ferow", "femixed"])
         if cls == "fe" and "bc" not in spec:  # regenerate without bc: the prescribed dofs take their place
             rng = np.random.default_rng(spec["seed"])
             A, cls, cplx, sparse, fmt, info, left = _matrix_for(rng, dict(spec, bc=False, cls="fe", cplx=cplx, sparse=sparse), ["fe"])
@@ -344,7 +392,7 @@ def build(spec):
         c.condmat = A[np.ix_(f, f)]
         c.condfull = A
     elif st == "staticcond":
-        A, cls, cplx, sparse, fmt, info, left = _matrix_for(rng, dict(spec, bc=False), ["spd", "general", "symindef", "fe"], sparse_only=True)
+        A, cls, cplx, sparse, fmt, info, left = _matrix_for(rng, dict(spec, bc=False), ["spd", "general", "symindef", "fe", "tri", "blocktri", "ferow", "femixed"], sparse_only=True)
         n = A.shape[0]
         if "roles" in spec:
             roles = np.array(spec["roles"])
@@ -706,6 +754,23 @@ def specs(ctx):
                     for _ in range(1 if quick else 3):
                         out.append({"stream": "linsolve", "seed": seed(), "cls": cls, "cplx": cplx, "sparse": sparse, "solver": None,
                                     "flags": flags, "k": k, "decouple": False, "lda": True})
+    # dofs decoupled in the ROW only (row-replacement Dirichlet conditions), in the COLUMN only, or in both; triangular and
+    # block-triangular matrices; FE stiffness with row-/column-replacement conditions. Random right-hand sides are non-zero
+    # on those dofs. Automatic solver with the default LDA wrapping, dense and every sparse format, vector and block rhs.
+    for cls in ("spd", "general", "symindef", "tri", "blocktri", "ferow", "fecol", "femixed"):
+        for dm in (("row", "col", "both", "mixed") if not cls.startswith("fe") else (False,)):
+            for sparse in (False, True):
+                for k in (None, 2):
+                    for cplx in ((False, True) if not quick else (bool(R.random() < 0.35),)):
+                        out.append({"stream": "linsolve", "seed": seed(), "cls": cls, "cplx": cplx, "sparse": sparse, "solver": None,
+                                    "flags": "none", "k": k, "decouple": dm, "lda": True})
+    for cls in ("spd", "general", "tri", "blocktri", "ferow", "femixed"):
+        for dm in (("row", "col", "mixed") if not cls.startswith("fe") else (False,)):
+            for sparse in (False, True):
+                for _ in range(1 if quick else 3):
+                    out.append({"stream": "soe", "seed": seed(), "cls": cls, "sparse": sparse, "decouple": dm, "solver": None})
+            for _ in range(1 if quick else 3):
+                out.append({"stream": "staticcond", "seed": seed(), "cls": cls, "decouple": dm, "solver": None})
     for _ in range(40 if quick else 600):
         out.append({"stream": "linsolve", "seed": seed()})
     for _ in range(12 if quick else 120):
